@@ -425,7 +425,7 @@ extern "C" int vp_enum(unsigned shard, unsigned nshards, int tier, vp_enum_stats
             bool sdbm = item == 8 || item == 10;
             a_u32 v0 = 0x2545F491u;
             if (item < 9) { whole = sdbm ? a_hash_sdbm_(base, N, v0) : a_hash_bkdr_(base, N, v0); }
-            else { whole = sdbm ? a_hash_sdbm(base, v0) : a_hash_bkdr(base, v0); }
+            else { whole = sdbm ? a_hash_sdbm((void const *)base, v0) : a_hash_bkdr((void const *)base, v0); }
             a_u32 h = sdbm ? a_hash_sdbm_(base, c1, v0) : a_hash_bkdr_(base, c1, v0);
             h = sdbm ? a_hash_sdbm_(base + c1, c2 - c1, h) : a_hash_bkdr_(base + c1, c2 - c1, h);
             h = sdbm ? a_hash_sdbm_(base + c2, N - c2, h) : a_hash_bkdr_(base + c2, N - c2, h);
